@@ -29,6 +29,8 @@ def run(idx, rep, tier):
     core = frozenset(idx.core_modules())
     res = Resolver(idx, core)
     rules = res.rules_of("apply_unary")
+    from sa.autorule import arity_obligations
+    arity_obligations(idx, rep, list(rules) + [r_ for f_ in ("exp", "log", "sqrt", "isqrt", "pow") for r_ in res.rules_of(f_)])
     if not rules:
         rep.missing_anchor("dispatched function apply_unary")
     for rule in rules:
